@@ -2,7 +2,7 @@
 (harness/cmd/walkgen + lean/Drivers/Walk.lean) and its oracles."""
 from . import lib
 
-COMPARE = ['err', 'vis', 'calls', 'pkgs', 'st']
+COMPARE = ['err', 'vis', 'calls', 'pkgs', 'st', 'fnd']
 FINGERPRINT = ['extractor/filesystem/filesystem.go:Run,runOnScanRoot,InitWalkContext,RunFS,walkIndividualPaths,walkContext.handleFile,walkContext.postHandleFile,'
                'lazyFileAPI.Stat,walkContext.shouldSkipDir,walkContext.runExtractor,walkContext.UpdateScanRoot,fileSize,addErrToMap,errToExtractorStatus',
                'extractor/filesystem/internal/walkdir_iterate.go:walkDirUnsorted,WalkDirUnsorted,readDir,dirIterator.next',
@@ -39,7 +39,11 @@ def run_stream(ctx, mode, n, oracle, classify=None, extra_gen_args=None):
         return fi.get('calls', '-') != '-'
 
     def cls(case, fi, fm):
-        return '%s err=%s hyp=%s' % (mode, fi.get('err'), fm.get('hyp'))
+        # which specification verdicts apply to the case (the shares of judged cases are visible in the evidence):
+        # B benign (calls/pkgs/statuses/findings = specification), F fatal class (err = fs iff traversal fault), L limit class (exact inode
+        # behaviour), C cancel class (exact cancellation outcome), M sequential machine (every configuration without a panicking extractor)
+        ver = ''.join(k for k, f in (('B', 'hyp'), ('F', 'fatalhyp'), ('L', 'limithyp'), ('C', 'cancelhyp'), ('M', 'nopanic')) if fm.get(f) == '1')
+        return '%s err=%s verdicts=%s' % (mode, fi.get('err'), ver or '-')
     return lib.standard_stream(ctx, gen='walkgen', driver='drv_walk',
                                gen_args=['-mode', mode, '-seed', str(ctx.seed), '-n', str(n)] + (extra_gen_args or []),
                                compare_keys=COMPARE, nontrivial=nontrivial, oracle=oracle, classify=classify or cls)
@@ -73,4 +77,27 @@ def oracle_calls(case, fi, fm):
         return 'reported packages %s differ from the union of the owed Extract results %s (id@extractor@hexpath)' % (fl(fi.get('pkgs'))[:6], fl(fm.get('specpkgs'))[:6])
     if 'specst' in fm and fi.get('st') != fm.get('specst'):
         return 'plugin statuses %s differ from the specified ones %s' % (fi.get('st'), fm.get('specst'))
+    if 'specfnd' in fm and fi.get('fnd') != fm.get('specfnd'):
+        return 'findings of the filesystem extractors %s differ from the union of the owed Extract results %s (extractor@hexpath, emitted order)' % (
+            fl(fi.get('fnd'))[:6], fl(fm.get('specfnd'))[:6])
+    if 'contained' in fm and fi.get('calls') != fm.get('contained'):
+        # theorem C09_contained_run_any_benign: the attempts are those of the FAULT-FREE rule for every file no fault lies on the way to
+        a, b = fl(fi.get('calls')), fl(fm.get('contained'))
+        return 'Extract calls differ from the fault-free calls minus the files behind a fault: missing=%s extra=%s' % (
+            [x for x in b if x not in a][:4], [x for x in a if x not in b][:4])
+    return None
+
+
+def oracle_machine(case, fi, fm):
+    """C10_machine_any: in EVERY configuration without a panicking extractor the scan ends with the filesystem error (possible only with
+    ErrorOnFSErrors) or its error, AfterInodeVisited count and Extract calls are those the sequential machine prescribes on the specification's trace."""
+    if fm.get('nopanic') != '1' or 'mspecerr' not in fm:
+        return None
+    eofs = dict(x.split('=') for x in case.split(' ')[1].split(',')).get('eofs') == '1'
+    if fi.get('err') == 'fs':
+        return None if eofs else 'the scan failed with a filesystem error although ErrorOnFSErrors is off'
+    want = (fm['mspecerr'], fm.get('mspecvis'), fm.get('mspeccalls'))
+    got = (fi.get('err'), fi.get('vis'), fi.get('calls'))
+    if got != want:
+        return 'limit/cancellation outcome: the sequential reading of the specification gives err=%s vis=%s calls=%s, the scan reported err=%s vis=%s calls=%s' % (want + got)
     return None
